@@ -40,13 +40,13 @@ use std::time::Duration;
 // ------------------------------------------------------------------------------------------------
 
 fn gen_fx(rng: &mut Rng, depth: u32) -> String {
-	let mix = o32(rng.pick(&[0.0f32, 1.0, 0.5, 0.25, 1.0]));
+	let mix = o32(rng.pick(&[0.0f32, 1.0, 0.5, 0.25, 1.0, 1.0, 0.5, -0.5, 1.5]));
 	match rng.below(8) {
 		0 => format!(
 			"filter:{}:{}:{}:{}",
 			rng.below(4),
 			o64(rng.pick(&[20.0, 200.0, 1000.0, 5000.0, 20000.0, 3999.0, 12345.6])),
-			o64(rng.pick(&[0.0, 0.5, 1.0, 0.9])),
+			o64(rng.pick(&[0.0, 0.5, 1.0, 0.9, -0.5, 1.5])),
 			mix
 		),
 		1 => format!(
@@ -89,7 +89,7 @@ fn gen_fx(rng: &mut Rng, depth: u32) -> String {
 			mix
 		),
 		6 => format!("vol:{}", o32(rng.pick(&[0.0f32, -6.0, -60.0, 6.0, -70.0]))),
-		_ => format!("pan:{}", o32(rng.pick(&[0.0f32, -1.0, 1.0, 0.3, 2.0]))),
+		_ => format!("pan:{}", o32(rng.pick(&[0.0f32, -1.0, 1.0, 0.3, 2.0, -2.0, -1.0000001]))),
 	}
 }
 
@@ -399,7 +399,7 @@ pub fn gen(rng: &mut Rng, n: usize, thorough: bool, stats: &mut Stats) -> Vec<St
 						rng.below(1 << 30),
 						gen_db(rng),
 						o64(rng.pick(&[1.0, 1.0, 0.5, 2.0, -1.0, 0.0, 1.0 / 3.0, 10.0, 1.4142135623730951])),
-						o32(rng.pick(&[0.0f32, -1.0, 1.0, 0.3])),
+						o32(rng.pick(&[0.0f32, -1.0, 1.0, 0.3, -2.0, 3.0, -1.5])),
 						o64(ls),
 						o64(le),
 						reverse as u8,
@@ -729,7 +729,7 @@ fn exec(sc: &mut Option<Scene>, l: &str, out: &mut Out) {
 				match tok[2] {
 					"vol" => s.sounds[i].set_volume(Decibels(v as f32), tw),
 					"rate" => s.sounds[i].set_playback_rate(PlaybackRate(v), tw),
-					_ => s.sounds[i].set_panning(Panning(v.clamp(-1.0, 1.0) as f32), tw),
+					_ => s.sounds[i].set_panning(Panning(v as f32), tw),
 				}
 				out.put("ok")
 			}
